@@ -30,7 +30,7 @@ func (c *vScriptConn) RemoteAddr() net.Addr { return nil }
 // One ReadFrom call from an arbitrary buffered prefix: the inductive step of "buff = bytes received
 // and not yet returned".
 //
-//verif:props=C10,C09 unwind=6 bounds="buffered bytes 0..70000 symbolic; up to 2 (quick) / 3 (thorough) further reads of 1..8 arbitrary bytes each"
+//verif:props=C10,C09 unwind=6 timeout=60000 bounds="buffered bytes 0..70000 symbolic; up to 2 (quick) / 3 (thorough) further reads of 1..8 arbitrary bytes each"
 func VerifHarness_C10_readfrom_step() {
 	b0 := vBigBytes(70000, 24)
 	conn := &vScriptConn{maxReads: 2 + vTier()}
